@@ -216,6 +216,8 @@ var reg = vk.Registry{"batch": func(raw json.RawMessage) *vk.Violation {
 	return check(c)
 }}
 
+func init() { reg["sequence"] = vk.SequenceReplayer(reg) }
+
 func TestReplay(t *testing.T) { vk.RunReplay(t, reg) }
 
 // texts whose part counts differ between codings
@@ -359,6 +361,6 @@ func TestBatch(t *testing.T) {
 			rec.Class("origin_given")
 		}
 		rec.Sample(c.Proto, map[string]any{"proto": c.Proto, "candidates": c.Candidates, "origin": c.Origin, "has_origin": c.HasOrigin, "text_bytes": len(c.Text) / 2, "usable": usable})
-		rec.Report(t, "batch", check(c))
+		rec.ReportSeq(t, "batch", c, func() *vk.Violation { return check(c) })
 	})
 }
